@@ -143,7 +143,7 @@ def r6_2(ctx, R, mus):
                 ctx.ob("R6.2", b, "%s@%s" % (api, _site_label(b, bb)), ok, b.loc(bb), det)
     ctx.floor("R6.2", "ManuallyDrop::new-sites", counts.get("ManuallyDrop::new", 0), 1)
     ctx.floor("R6.2", "Box::into_raw-sites", counts.get("Box::into_raw", 0), 2)
-    ctx.floor("R6.2", "ptr::write-sites", counts.get("ptr::write", 0), 3)
+    ctx.floor("R6.2", "ptr::write-sites", counts.get("ptr::write", 0), 2)
     ctx.floor("R6.2", "MaybeUninit::write-sites", counts.get("MaybeUninit::write", 0), 2)
 
 
@@ -436,6 +436,29 @@ def r6_6(ctx, R, mus):
                             continue
                         work_g.append(y_)
                 ok_g = bb not in seen_g
+                if not ok_g:
+                    # vacancy test carried by a `filter` adaptor of the iterator itself: its closure returns
+                    # is_none(ACCESSOR(.., index of the enumerated element)) (or !is_some(..))
+                    for c_ in expr_calls(nx[2][0]):
+                        if not ((c_[1] or "").endswith("::filter") and len(c_[2]) == 2):
+                            continue
+                        cl = c_[2][1]
+                        if not (cl[0] == "agg" and cl[1].startswith("closure:")):
+                            continue
+                        cb = ctx.facts.bodies.get(cl[1][len("closure:"):])
+                        if cb is None:
+                            continue
+                        r_ = ctx.flow(cb).local_expr(0)
+                        neg = False
+                        while r_[0] == "unop" and r_[1] == "Not":
+                            r_ = r_[2]
+                            neg = not neg
+                        if r_[0] == "call" and r_[2] and (((r_[1] or "").endswith("::is_none") and not neg) or ((r_[1] or "").endswith("::is_some") and neg)):
+                            acc = [a_ for a_ in expr_calls(r_) if a_[1] in accs]
+                            if acc:
+                                idx = strip_refs(acc[0][2][-1])
+                                if idx[0] == "proj" and strip_refs(idx[1]) == ("param", 2) and idx[2] and idx[2][-1] == ".0":
+                                    ok_g = True
                 ctx.ob("R6.6", b, "release-guarded-by-vacancy-of-same-index@%s" % _site_label(b, bb), ok_g, b.loc(bb))
     ctx.floor("R6.6", "release-sites", n, 2)
 
